@@ -647,6 +647,11 @@ func init() {
 		for _, k := range deep {
 			out = append(out, Inst{Pkg: "knx", Fn: "HarnessC17", Args: []int64{0, k, 3}, Note: "long burst, reader resumes in the middle"})
 		}
+		for _, cl := range []int64{1, 5} {
+			for _, mode := range []int64{1, 3} {
+				out = append(out, Inst{Pkg: "knx", Fn: "HarnessC17BB", Args: []int64{cl, 3, mode, 1}, Ctx: 2, Note: "after a warm-up telegram that was parked and taken (queue used once)"})
+			}
+		}
 		for mode := int64(0); mode < 4; mode++ {
 			out = append(out, Inst{Pkg: "knx", Fn: "HarnessC17", Args: []int64{8, 3, mode}, Note: "tunnel whose overflow queue was used and drained before (empty, no spare capacity)"})
 		}
